@@ -1,5 +1,5 @@
 //! crossbeam-channel shim: the channel / select model of stretto-verif-rt (see rt/src/chan.rs).
 pub use stretto_verif_rt::chan::{
-    after, bounded, never, tick, unbounded, Iter, Receiver, RecvError, SendError, Sender, TryIter, TryRecvError, TrySendError,
+    after, bounded, never, tick, unbounded, Iter, Receiver, RecvError, RecvTimeoutError, SendError, SendTimeoutError, Sender, TryIter, TryRecvError, TrySendError,
 };
 pub use stretto_verif_rt::select;
